@@ -1521,6 +1521,7 @@ func arithNonNeg(m *Matcher, v ssa.Value, depth int) bool {
 var reviewedBounds = map[string]string{
 	"fdo/internal/nistkdf.KDF":                         "buffers are sized from the requested bit length and the PRF size, both registry constants (C09.cipher-registry); the derived secret only fills them",
 	"fdo/cbor/cdn.sortMap$1":                           "debug notation: indices is a permutation of 0..len(keys)-1 built in the enclosing function",
+	"fdo/cbor.Encoder.encodeMap":                       "the key order is a permutation of 0..len(keys)-1 that the encoder builds itself (make(len), fill with the loop counter, sort.Slice only permutes), in this function or in a helper it calls",
 	"fdo/cose.truncHash.Sum":                           "Truncate is the registered constant 8, below every hash size",
 	"fdo/cose.aesCbcMac.Write":                         "AES-CBC-MAC is registered but used by no cipher suite (C09.cipher-registry lists only HMAC); pos is kept below the block size by construction",
 	"fdo/cose.aesCbcMac.Sum":                           "AES-CBC-MAC is registered but used by no cipher suite; tag sizes are registered constants not above the block size",
